@@ -127,6 +127,15 @@ func init() {
 		}
 		return e.ts.Bool(st.threads[id].finished)
 	}
+	intrinsics[vrtPkg+".Unfinished"] = func(e *Engine, st *State, th *Thread, args []Value, pos token.Pos) Value {
+		n := 0
+		for _, u := range st.threads {
+			if u != th && !u.finished {
+				n++
+			}
+		}
+		return e.i64(uint64(n))
+	}
 	intrinsics[vrtPkg+".NumThreads"] = func(e *Engine, st *State, th *Thread, args []Value, pos token.Pos) Value {
 		return e.i64(uint64(len(st.threads)))
 	}
